@@ -141,7 +141,16 @@ def _mentions_local_rv(x, l):
     return False
 
 
-def state_locals(body, loop_blocks):
+def break_arms(body, loop_blocks, header, start, exit_none):
+    """blocks that run only in the iteration that leaves the loop early: reachable from the loop body without passing the
+    header again, outside the natural loop, and not reachable from the exhaustion exit (where the ways out meet again)"""
+    if start is None or exit_none is None:
+        return set()
+    after = body.reachable_from(exit_none, avoid={header})
+    return set(b for b in body.reachable_from(start, avoid={header}) if b not in loop_blocks and b not in after and not body.is_cleanup(b))
+
+
+def state_locals(body, loop_blocks, arms=()):
     """Loop-carried control state: locals whose every definition is a constant (enum unit variant / bool), directly or by
     copying a temporary that itself only holds constants (`state = if c { A } else { B }`), with a definition inside the
     loop (or in a break-exit block) and one before it.  Returns {local: {"init": [...], "values": set}}"""
@@ -172,7 +181,7 @@ def state_locals(body, loop_blocks):
         def exit_block(b):
             ps = [p_ for p_ in body.preds()[b] if not body.is_cleanup(p_)]
             return bool(ps) and all(p_ in loop_blocks for p_ in ps)
-        xb = (lambda b: exit_block(b)) if not _is_drop_flag(body, local) else (lambda b: False)
+        xb = (lambda b: exit_block(b) or b in arms) if not _is_drop_flag(body, local) else (lambda b: False)
         inside = [v for b, v in vals if b in loop_blocks or xb(b)]
         outside = [v for b, v in vals if not (b in loop_blocks or xb(b))]
         if inside and len(outside) >= 1:
@@ -306,7 +315,6 @@ def loop_transitions(facts, summ, body, loop):
     h = loop["header"]
     nb = loop["next_bb"]
     blocks = loop["blocks"]
-    st = state_locals(body, blocks)
     # element term: (next(..) as Some).0
     nxt = body.call_term(nb)
 
@@ -329,6 +337,8 @@ def loop_transitions(facts, summ, body, loop):
                 break
     if start is None:
         raise AnchorError("loop head shape not understood (no switch on next())", body.key)
+    arms = break_arms(body, blocks, h, start, exit_none)
+    st = state_locals(body, blocks, arms)
     paths = []
     stack = [(start, (start,))]
     guard = 0
@@ -345,7 +355,7 @@ def loop_transitions(facts, summ, body, loop):
         for s_ in succs:
             if s_ == h or (s_ in blocks and body.dominates(s_, h) and s_ == h):
                 paths.append((path + (s_,), "continue"))
-            elif s_ not in blocks:
+            elif s_ not in blocks and s_ not in arms:
                 paths.append((path + (s_,), "break"))
             elif s_ in path:
                 raise AnchorError("inner cycle in loop body", body.key)
@@ -376,7 +386,7 @@ def loop_transitions(facts, summ, body, loop):
             else:
                 conds.append(f)
         for b2 in path:
-            if b2 not in blocks and b2 != path[-1]:
+            if b2 not in blocks and b2 not in arms and b2 != path[-1]:
                 continue
             if b2 == path[-1] and kind == "continue":
                 continue
